@@ -244,6 +244,28 @@ def gen_backlog_then_sup(rng):
     return {"actors": actors, "msgs": msgs, "ops": ops}
 
 
+def gen_abort_before_first_poll(rng):
+    """A linked child is spawned to completion (`spawn_linked(..).await`, pre_start without gates) and
+    the returned loop handle is aborted at once, before the loop task was ever polled.  The actor was
+    marked running before its task was created: the living supervisor still gets exactly one
+    ActorTerminated(.., no state, "actor_task_cancelled") (seeded regression C06-6: mark_running moved
+    into the spawned task).  Send mode only (op `spawnx`)."""
+    trivial = ([], ("ok",))
+    sup0 = rng.choice([None, ([("t",)] * rng.choice([0, 1]), ("ok",))])
+    n = rng.choice([2, 2, 3])
+    actors = [{"pre": trivial, "ps": trivial, "stop": ([("t",)], ("ok",)), "sup": sup0, "link": None}]
+    for i in range(1, n):
+        actors.append({"pre": ([("t",)] * rng.choice([0, 1, 2]), ("ok",)), "ps": ([("t",)], ("ok",)),
+                       "stop": ([("t",)], ("ok",)), "sup": None, "link": rng.choice([0, 0, 0, None])})
+    msgs = {1: ([("t",)], ("ok",)), 2: trivial, 3: trivial, 4: trivial}
+    ops = [("spawn", 0), ("settle",)]
+    for i in range(1, n):
+        ops += [rng.choice([("spawnx", i), ("spawnx", i), ("spawn", i)]), ("settle",)]
+    if rng.random() < 0.5:
+        ops += [("send", 0, 1), ("settle",)]
+    return {"actors": actors, "msgs": msgs, "ops": ops}
+
+
 def gen_fail_with_pending_stop(rng):
     """A callback after pre_start fails (Err or panic) while a graceful stop / drain request for the
     same actor is already pending: the handler itself asked for the stop before failing, or an outside
@@ -358,7 +380,9 @@ def op_coq(o):
     return {"spawn": lambda: f"DL (LSpawn {o[1]})", "send": lambda: f"DL (LSend {o[1]} {o[2]})",
             "stop": lambda: f"DL (LStop {o[1]} {onat(o[2])})", "kill": lambda: f"DL (LKill {o[1]})",
             "drain": lambda: f"DL (LDrain {o[1]})", "open": lambda: f"DL (LOpen {o[1]})",
-            "abort": lambda: f"DL (LAbort {o[1]})", "settle": lambda: "DSettle"}[k]()
+            "abort": lambda: f"DL (LAbort {o[1]})", "settle": lambda: "DSettle",
+            # spawn to completion by the awaiting task, loop handle aborted before the loop task's first poll
+            "spawnx": lambda: f"DL (LSpawn {o[1]}); DL (LPoll {o[1]} 60); DL (LAbort {o[1]})"}[k]()
 
 
 def world_coq(sc, local=False):
@@ -706,6 +730,8 @@ def run_loop_check(chk, oracle_fn, focus, what, accept=lambda o: o == "true", co
             scs.append(gen_fail_with_pending_stop(chk.rng))
         elif k % 20 == 3:
             scs.append(gen_backlog_then_sup(chk.rng))
+        elif k % 40 == 19:
+            scs.append(gen_abort_before_first_poll(chk.rng))
         elif k % 8 == 7:
             scs.append(gen_abort_in_post_stop(chk.rng))
         elif k % 5 == 4:
